@@ -10,6 +10,8 @@ pub struct DocumentState {
     pub document: Document,
     pub ident_dict: Lrc<MutableDictionary>,
     pub dict: Lrc<MergedDictionary>,
+    /// The dictionary `dict` was built from, before the identifiers of the document were merged in.
+    pub base_dict: Lrc<MergedDictionary>,
     pub linter: LintGroup,
     pub language_id: Option<String>,
     pub ignored_lints: IgnoredLints,
@@ -91,6 +93,7 @@ impl Default for DocumentState {
             document: Default::default(),
             ident_dict: Default::default(),
             dict: Default::default(),
+            base_dict: Default::default(),
             linter: Default::default(),
             language_id: Default::default(),
             ignored_lints: Default::default(),
